@@ -308,7 +308,8 @@ def r1(R):
     methods = {n.name: n for n in cls.body if isinstance(n, ast.FunctionDef)}
     cc = methods.get("clear_cache")
     R.shape(cc is not None, "C04.R1", GRAIN, "grain", "clear_cache")
-    cleared = set(src(a.targets[0]) for a in ast.walk(cc) if isinstance(a, ast.Assign) and src(a.value) == "None")
+    cleared, unread = pyfacts.attrs_reset(cc)
+    R.shape(not unread, "C04.R1", GRAIN, "grain.clear_cache", "resets of the form self._x = None / setattr(self, <literal names>, None) (unread: %s)" % "; ".join(unread)[:120])
     lazy = {}
     for name, fn in methods.items():
         if not any(pyfacts.dotted(d) == "property" for d in fn.decorator_list):
